@@ -17,7 +17,8 @@ PROPS = {
     'C09': {'units': ['U-VT', 'U-LEXD', 'U-LEXA', 'U-LINT'], 'assumptions': ['alpha parser literal handling (negation, suffix inference) and generator constant materialisation are not under contract',
             'alpha lexer: the direction proved is accepted => well formed with the documented value (so malformed literals are rejected); that every well-formed literal is accepted, and the specific error kinds E160-E163 per malformation, are not proved',
             'alpha lexer std calls under assumed specs (checked against real std by an exhaustive/random scratch program, not on every run): char::{is_ascii_hexdigit,is_ascii_digit,is_digit,is_ascii_graphic,is_ascii,from_u32,encode_utf8,to_string}, {u8,u32,u128}::from_str_radix on all-digit strings, str::parse::<u128>, String::{len,as_bytes}, str::len'], 'trusted': []},
-    'C11': {'units': ['U-VT', 'U-ALIGN', 'U-EXTERN'], 'assumptions': ['permutation invariance (Compiler sorting, feature-gated) and cycle detection (found_container*) are not under contract',
+    'C11': {'units': ['U-VT', 'U-ALIGN', 'U-EXTERN', 'U-SCOPE'], 'assumptions': ['name resolution and cycle detection of top-level declarations are under contract (U-SCOPE: declare_*/use_struct/use_constant/use_function/use_containee/found_container_1/determine_container_depths/predeclare); found_container (the walk over a member or constant TYPE that feeds found_container_1), obtain_container_depth, postanalyze, the tree walk and the sorting of declarations (Compiler, feature-gated) are not under contract',
+            'U-SCOPE preconditions no call site in the unit discharges: fewer than 2^32 resolution ids, at least one open scope when declaring, in_constexpr_of_constant names a predeclared constant, constants_are_containers; trusted: Option::flatten and HashSet::clone specifications, the wrappers scope_union / scope_difference whose body is the operator application (prelude/scope_std.rs, scope_hashset.rs)',
             'align_struct preconditions (struct or word with sized members; layout fits usize) are the typer\'s obligation, not verified'], 'trusted': []},
     'C08': {'units': ['U-VT', 'U-MUT', 'U-MUTW', 'U-FCALL', 'U-CONST'], 'assumptions': ['the whole-program non-interference consequence is not under contract; constant initialisers are not walked by mutability.rs; it relies on constness.rs rejecting every address, access path and call in a constant initialiser, which is proved (U-CONST); ReferenceStep::analyze of constness.rs has a latent unreachable!() that is dead code (every reference with steps is rejected before it runs): it carries a caller precondition that holds vacuously at its only call site'], 'trusted': []},
     'C12': {'units': ['U-EXPORT', 'U-KEYOFF'], 'assumptions': ['expand (import fix-point), Compiler multi-module state and split-equivalence are not under contract'], 'trusted': []},
@@ -120,5 +121,9 @@ LEVELS = {'C07': {'text': 'PARTIAL: proof (Verus, unbounded over all value types
  'C11': {'text': 'PARTIAL: proof (Verus, unbounded over all types of any nesting depth). value_type.rs: is_wellformed / can_be_* equal a declarative spec of the E350-E359 shapes. typer.rs align_struct/align: alignment '
                  'is the least multiple, total size = sum of aligned member sizes, total alignment = max member alignment, E380 iff the aligned total exceeds the declared word size, no overflow. typer.rs '
                  'externalize_type/fix_type_for_extern: accepted iff an ABI type at every depth, else E358 naming the offending type; an accepted type stays well formed EXCEPT array views of array views (D15: recorded '
-                 'known finding with replayed witness). Permutation invariance (Compiler sorting) and cycle detection (found_container*, HashSet closures) are NOT under contract.',
+                 'known finding with replayed witness). scoper/variable_references.rs (U-SCOPE): a type name resolves to the first STRUCTURE of that name and a constant name in the constant layer only, wherever it is declared '
+                 '(theorem_resolution_is_by_name_not_by_position: with unique names every reordering resolves every name alike), else exactly E405 / E402 / E433; duplicates E421/E423/E425 iff the name is taken in the same '
+                 'namespace, the first declaration keeps the name; every dependency is recorded in sets that stay transitive and irreflexive, an edge is rejected iff it closes a cycle (E413/E415/E416 with exact payloads); '
+                 'container depths are the round in which all dependencies are resolved and do not depend on declaration order (theorem_depths_do_not_depend_on_declaration_order). The walk over member/constant types that '
+                 'feeds these (found_container), the tree walk and the sorting of declarations (Compiler, feature-gated) are NOT under contract.',
          'note': "trusted: Verus+Z3, slicer/splicer, derived PartialEq/Clone specs, vstd HashMap model; align_struct preconditions (struct/word with sized members, layout fits usize) are the typer's obligation"}}
